@@ -207,9 +207,20 @@ def mgr_scheduler_per_component(ctx: Ctx, pid: str):
 # runnable / method run / call recording
 
 
+def _mgr_combinational(ctx: Ctx, pid: str):
+    """The wiring emitted by TransactionManager.elaborate (runnable, method run, argument mux, mirrors of provided methods)
+    is combinational: every assignment is in m.d.comb.  A clocked one would apply a scheduling decision a cycle late."""
+    fn = _fn(ctx, MANAGER, "TransactionManager.elaborate", f"{pid}.manager-combinational")
+    hs = fn.facts(HwAssign)
+    wrong = [h for _, h in hs if h.domain != ("c", "comb")]
+    ctx.check(bool(hs) and not wrong, f"{pid}.manager-combinational", wrong[0].site if wrong else fn.site, "TransactionManager.elaborate.domains",
+              found=f"{len(hs)} assignment(s)" + (f"; {tstr(wrong[0].domain)} += {tstr(wrong[0].lhs)}" if wrong else ", all comb"), required="every assignment of the manager is in m.d.comb", nontrivial=False)
+
+
 def mgr_runnable(ctx: Ctx, pid: str):
     """C03.b: runnable = all( body.ready & all(ready-dependency runs) for every body that must be ready, + validators )."""
     rule = f"{pid}.runnable"
+    _mgr_combinational(ctx, pid)
     fn = _fn(ctx, MANAGER, "TransactionManager.elaborate", rule)
     hs = fn.facts(HwAssign, lambda h: h.lhs is not None and h.lhs[0] == "a" and h.lhs[2] == "runnable")
     ctx.floor(rule, "runnable assignments", len(hs), 1, fn.site)
@@ -320,6 +331,7 @@ def mgr_ready_dependencies(ctx: Ctx, pid: str):
 def mgr_method_run(ctx: Ctx, pid: str):
     """C04.a: method.run == any(t.run & any(enable of t's calls to the method) for t in transactions_by_method[m])."""
     rule = f"{pid}.method-run"
+    _mgr_combinational(ctx, pid)
     fn = _fn(ctx, MANAGER, "TransactionManager.elaborate", rule)
     hs = [(ex, h) for ex, h in fn.facts(HwAssign) if h.lhs is not None and h.lhs[0] == "a" and h.lhs[2] == "run" and loops(h)
           and pmatch("Q_mm.transactions_by_method.items()", loops(h)[0][1])]
@@ -538,9 +550,9 @@ def body_wrappers(ctx: Ctx, pid: str):
                 continue
             # ready driven in a condition-gated domain
             rd = [h for h in ex.of(HwAssign) if h.lhs == ("a", body, "ready")]
-            okr = len(rd) == 1 and rd[0].domain in (("c", "av_comb"), ("c", "comb")) and rd[0].rhs[0] == "p" and rd[0].rhs[3] == "ready"
+            okr = len(rd) == 1 and rd[0].domain == ("c", "av_comb") and rd[0].rhs[0] == "p" and rd[0].rhs[3] == "ready"
             ctx.check(okr, f"{pid}.ready-domain", rd[0].site if rd else fn.site, f"{qual}.ready", found="; ".join(f"{tstr(h.domain)} += ready.eq({tstr(h.rhs)})" for h in rd) or "not driven",
-                      required="body.ready driven from the ready argument in av_comb/comb (gated by surrounding conditions, not unconditionally)")
+                      required="body.ready driven from the ready argument in av_comb: gated by the surrounding conditions but not by the run of an enclosing body (in comb a nested body's ready would depend on the enclosing run, which depends on that ready)")
             if kind == "method":
                 do = [h for h in ex.of(HwAssign) if h.lhs == ("a", body, "data_out")]
                 ctx.check(len(do) == 1 and do[0].domain == ("c", "top_comb") and do[0].rhs[0] == "p" and do[0].rhs[3] == "out", f"{pid}.result-wiring",
@@ -553,24 +565,27 @@ def body_wrappers(ctx: Ctx, pid: str):
                     if h.lhs is not None and h.lhs[0] == "a" and h.lhs[1] == ("self",) and h.rhs[0] == "a" and h.rhs[1] == body:
                         mirrors[h.lhs[2]] = (h.rhs[2], h)
                 want = {"ready", "run", "data_in", "data_out"}
-                ok_m = set(mirrors) == want and all(k == v[0] for k, v in mirrors.items())
-                ctx.check(ok_m, f"{pid}.mirrors", fn.site, f"{qual}.mirrors", found=", ".join(f"{k}<-{v[0]}" for k, v in sorted(mirrors.items())),
-                          required="method.f <- body.f for f in ready, run, data_in, data_out (same field)")
+                ok_m = set(mirrors) == want and all(k == v[0] and v[1].domain == ("c", "top_comb") for k, v in mirrors.items())
+                ctx.check(ok_m, f"{pid}.mirrors", fn.site, f"{qual}.mirrors", found=", ".join(f"{k}<-{v[0]} in {tstr(v[1].domain)}" for k, v in sorted(mirrors.items())),
+                          required="method.f <- body.f for f in ready, run, data_in, data_out (same field), unconditionally (top_comb: also when the definition is nested in another body)")
                 ctx.floor(f"{pid}.mirrors", "mirror assignments", len(mirrors), 4, fn.site)
     # Transaction._set_impl mirrors
     rule = f"{pid}.mirrors"
     fn = _fn(ctx, TRANSACTION, "Transaction._set_impl", rule)
     value = fn.param(2)
     mirrors = {}
+    doms = set()
     for ex, h in fn.facts(HwAssign):
         if h.lhs is not None and h.lhs[0] == "a" and h.lhs[1] == ("self",) and h.rhs[0] == "a" and h.rhs[1] == value:
             mirrors[h.lhs[2]] = h.rhs[2]
-    ctx.check(set(mirrors) == {"ready", "runnable", "run"} and all(k == v for k, v in mirrors.items()), rule, fn.site, "Transaction._set_impl.mirrors",
+            doms.add(h.domain)
+    ctx.check(set(mirrors) == {"ready", "runnable", "run"} and all(k == v for k, v in mirrors.items()) and doms == {("c", "top_comb")}, rule, fn.site, "Transaction._set_impl.mirrors",
               found=", ".join(f"{k}<-{v}" for k, v in sorted(mirrors.items())), required="transaction.f <- body.f for f in ready, runnable, run")
 
 
 def mgr_provided_mirrors(ctx: Ctx, pid: str):
     rule = f"{pid}.mirrors"
+    _mgr_combinational(ctx, pid)
     fn = _fn(ctx, MANAGER, "TransactionManager.elaborate", rule)
     mirrors = {}
     site = fn.site
@@ -612,6 +627,7 @@ def mgr_provided_mirrors(ctx: Ctx, pid: str):
 def mgr_argument_routing(ctx: Ctx, pid: str):
     """C05.a,b,c: per-method argument/run lists aligned; data_in = combiner(args, runs); default combiner = one-hot mux."""
     rule = f"{pid}.argument-routing"
+    _mgr_combinational(ctx, pid)
     fn = _fn(ctx, MANAGER, "TransactionManager._method_calls", rule)
     apps = fn.facts(Effect, lambda e: pmatch("Q_l[Q_k].append(Q_v)", e.call) is not None)
     ctx.floor(rule, "list appends", len(apps), 2, fn.site)
